@@ -95,15 +95,10 @@ def runOpNav (op : String) (args : List String) : String :=
       let ps := paths t
       let outs := (out.splitOn ";").map decON
       if outs.length != ps.length then "FAIL arity" else
-      let tbl := (ps.zip outs)
-      -- tokens keep their numbers
-      if !(tbl.all fun (p, n) => match t.get? p with
-            | some (leaf k _) => n == some (some k)
-            | _ => true) then "FAIL token-number-changed" else
-      let nums := tbl.filterMap fun (p, n) => match t.get? p, n with
-            | some (node _ (_ :: _)), some (some k) => some (p, k)
-            | _, _ => none
-      if Spec.numberingOK t nums then "ok" else "FAIL numbering"
+      -- the named specification predicate (TT/Spec/More16d.lean; `exportNumsOK_model`): tokens keep their numbers, the
+      -- constituents are numbered 500.. level by level, left to right, above all their descendants
+      if !(outs.all (·.isSome)) then "FAIL numbering-unreadable" else
+      if Spec.exportNumsOK t (ps.zip (outs.map (·.getD none))) then "ok" else "FAIL numbering"
   | _, _ => unknownOp
 
 end Driver
